@@ -414,7 +414,10 @@ func jsonPatchOp(root interface{}, op interface{}) (interface{}, error) {
 		}
 		v, err := getPtr(root, fp)
 		if err != nil {
-			return nil, err
+			// RFC 6902 makes a missing "from" location an error; the engine in use treats a missing object member as null for
+			// copy. Conformance with RFC 6902 is not part of the properties, so the shape is left undefined here (like "replace"
+			// of a missing member).
+			return nil, ErrUnmodelled
 		}
 		v = Clone(v)
 		if name == "move" {
